@@ -77,15 +77,13 @@ Definition cnv_spec (n rsz cnv_offset : nat) (a b : plimbs) : plimbs :=
 
 (* ---------------- placement in the destination buffer (every column, flat order) ---------------- *)
 Definition slot (n : nat) (data : list Z) (q : nat) : list Z := firstn n (skipn (n * q) data).
-(* FFT64 convolution_apply_dft / convolution_pairwise_apply_dft: `reim4_save_1blk_contiguous(m, min_size, blk, res.raw_mut(), tmp)`
-   stores computed limb k at flat limb slot k of the WHOLE buffer (res_col and res.cols() are not used), then
-   `res.zero_at(res_col, j)` for j in min_size..res_size.  NTT120 (and cnv_by_const_apply in both families) address
-   `res.at_mut(res_col, k)`. *)
-Definition cnv_store (flat_bug : bool) (n rcols rsz rcol ms : nat) (f : nat -> list Z) (r0 : list Z) : list Z :=
+(* Both families address `res.at_mut(res_col, k)` for the computed limbs k < min_size and zero `res.at(res_col, j)` for
+   j in min_size..res_size (FFT64 since the repair 2ac1856; before it the FFT64 kernels stored limb k at flat slot k of the
+   whole buffer, ignoring res_col and res.cols()). *)
+Definition cnv_store (n rcols rsz rcol ms : nat) (f : nat -> list Z) (r0 : list Z) : list Z :=
   concat (map (fun q =>
      let j := (q / rcols)%nat in let c := (q mod rcols)%nat in
      if Nat.eqb c rcol && Nat.leb ms j then pzero n
-     else if flat_bug then (if Nat.ltb q ms then f q else slot n r0 q)
      else if Nat.eqb c rcol then f j else slot n r0 q) (seq 0 (rcols * rsz))).
 (* what the API documents: column rcol receives the rsz output limbs, nothing else changes *)
 Definition cnv_store_spec (n rcols rsz rcol : nat) (f : nat -> list Z) (r0 : list Z) : list Z :=
